@@ -589,8 +589,51 @@ theorem inv_stepCloser (order : List Nat) (s : Sys) (hI : Inv order s) : Inv ord
       constructor <;> (try (simp_all [pendingFor]; done))
   | returned => simp only; exact hI
 
+theorem inv_closerNext (order : List Nat) (s : Sys) (c : Nat) (hI : Inv order s) : Inv order (closerNext s c) := by
+  unfold closerNext
+  cases hc : s.cpc with
+  | disc l todo =>
+    simp only
+    split
+    · rename_i hmem
+      refine inv_closerShared order s _ hI ?_ ?_ ?_ ?_ ?_ ?_ ?_
+      · rfl
+      · rfl
+      · have := hI.waitLate; simpa [hc, afterWait] using this
+      · simp [lateC]
+      · intro l' hl'
+        rcases hI.lis l' hl' with h | h | h
+        · exact Or.inl h
+        · simp only [hc, curL] at h; exact Or.inr (Or.inl (by simpa [curL] using h))
+        · exact Or.inr (Or.inr h)
+      · intro l' hl'
+        simp only [curL, Option.some.injEq] at hl'
+        subst hl'
+        have := hI.cur l (by simp [hc, curL])
+        exact ⟨this.1, fun _ => this.2 (by simp [hc])⟩
+      · intro i h hi hh
+        obtain ⟨a1, a2, a3, a4, a5, a6, a7, a8, a9, a10⟩ := hh
+        constructor <;> (try (simp_all [pendingFor]; done))
+        intro hr hl
+        rcases a8 hr hl with h1 | h1
+        · exact Or.inl h1
+        · right
+          rw [hc] at h1
+          simp only [pendingFor] at h1 ⊢
+          split
+          · rename_i hll
+            simp only [hll, if_true] at h1
+            by_cases hic : i = c
+            · simp [hic]
+            · exact List.mem_cons_of_mem _ ((List.mem_erase_of_ne hic).2 h1)
+          · rename_i hll
+            simp [hll] at h1
+    · exact hI
+  | _ => simp only; exact hI
+
 theorem inv_step (order : List Nat) (s : Sys) (e : Ev) (hI : Inv order s) : Inv order (step s e) := by
   cases e with
+  | closerNext c => exact inv_closerNext order s c hI
   | closer => exact inv_stepCloser order s hI
   | handler i => exact inv_stepHandler order s i hI
   | peerClose i => exact inv_peerClose order s i hI
